@@ -49,3 +49,371 @@ Proof.
   intros N1 N2 H. apply nth_error_In in H. split; [exact (NoDup_flat_map_in _ _ _ N1 H)|].
   exact (NoDup_flat_map_in (fun s : lslot => match s with Some (e, _, ch) => e :: leids ch | None => [] end) _ _ N2 H).
 Qed.
+
+Lemma lnup_set_nth_some sl k a b c s' : nth_error sl k = Some (Some (a, b, c)) -> (exists a' b' c', s' = Some (a', b', c')) ->
+  lnup (set_nth k s' sl) = lnup sl.
+Proof.
+  intros H (a' & b' & c' & ->). unfold lnup. revert k H. induction sl as [|s sl IH]; intros k H; [destruct k; discriminate|].
+  destruct k as [|k]; cbn in H.
+  - injection H as ->. reflexivity.
+  - rewrite set_nth_cons. cbn [filter]. destruct s; cbn [length]; rewrite (IH k H); reflexivity.
+Qed.
+
+Section Down.
+  Variables (h h' : heap) (lt : ltree).
+  Hypothesis R : Rep h lt.
+  Variables (p1 : option (nat * nat)) (x : nat) (nmx : string) (cmx : list string) (sl1 : list lslot) (k ix : nat).
+  Variables (ec : nat) (eic : einfo) (y : nat) (nmy : string) (cmy : list string) (sl2 : list lslot) (iy : nat).
+  Variables (e1 : nat) (ei1 : einfo) (xm : nat) (nmA : string) (cmA : list string) (slA : list lslot).
+  Variables (e2 : nat) (ei2 : einfo) (ym : nat) (nmB : string) (cmB : list string) (slB : list lslot).
+  Let A := LNode xm nmA cmA slA.
+  Let B := LNode ym nmB cmB slB.
+  Let Ysub := LNode y nmy cmy sl2.
+  Let sub1 := LNode x nmx cmx sl1.
+  Hypothesis Hsub : In (p1, sub1) (lsubs None lt).
+  Hypothesis Hk : nth_error sl1 k = Some (Some (ec, eic, Ysub)).
+  Hypothesis Hix : nth_error sl1 ix = Some (Some (e1, ei1, A)).
+  Hypothesis Hne : ix <> k.
+  Hypothesis Hiy : nth_error sl2 iy = Some (Some (e2, ei2, B)).
+  Variables (hx hy hxm hym : hnode) (jx jy : nat) (edc : hedge).
+  Hypothesis Hx : alookup x (hnodes h) = Some hx.
+  Hypothesis Hy : alookup y (hnodes h) = Some hy.
+  Hypothesis Hxm : alookup xm (hnodes h) = Some hxm.
+  Hypothesis Hym : alookup ym (hnodes h) = Some hym.
+  Hypothesis Jx : index_of x (hneigh hxm) = Some jx.
+  Hypothesis Jy : index_of y (hneigh hym) = Some jy.
+  Hypothesis Hec : alookup ec (hedges h) = Some edc.
+  Hypothesis D : nni_desc h h' x y xm ym ix iy jx jy e1 e2 ec false hx hy hxm hym (mkHE x xm ei1) (mkHE y ym ei2) edc.
+  Let Y' := LNode y nmy cmy (set_nth iy (Some (e1, ei1, A)) sl2).
+  Let new1 := LNode x nmx cmx (set_nth ix (Some (e2, ei2, B)) (set_nth k (Some (ec, eic, Y')) sl1)).
+
+  Definition TN (z : nat) : Prop := z <> x /\ z <> y /\ z <> xm /\ z <> ym.
+  Definition TE (z : nat) : Prop := z <> e1 /\ z <> e2 /\ z <> ec.
+
+  Lemma ND_same_n z : TN z -> alookup z (hnodes h') = alookup z (hnodes h).
+  Proof.
+    intros (A1 & A2 & A3 & A4). rewrite (nd_nodes _ _ _ _ _ _ _ _ _ _ _ _ _ _ _ _ _ _ _ _ _ D).
+    destruct (Nat.eqb_spec z x); [contradiction|]. destruct (Nat.eqb_spec z y); [contradiction|].
+    destruct (Nat.eqb_spec z xm); [contradiction|]. destruct (Nat.eqb_spec z ym); [contradiction|]. reflexivity.
+  Qed.
+  Lemma ND_same_e z : TE z -> alookup z (hedges h') = alookup z (hedges h).
+  Proof.
+    intros (A1 & A2 & A3). rewrite (nd_edges _ _ _ _ _ _ _ _ _ _ _ _ _ _ _ _ _ _ _ _ _ D).
+    destruct (Nat.eqb_spec z e1); [contradiction|]. destruct (Nat.eqb_spec z e2); [contradiction|].
+    destruct (Nat.eqb_spec z ec); [contradiction|]. reflexivity.
+  Qed.
+
+  Lemma ND_untouched q X a b ce P : (forall z, In z (lids X) -> TN z) -> (forall z, In z (a :: leids X) -> TE z) ->
+    q <> Some ce -> forall i, slot_ok true h P i ce (Some (a, b, X)) ->
+    slot_ok true h' q i ce (Some (a, b, X)).
+  Proof.
+    intros Hn He Hq i Hok. cbn [slot_ok] in *. destruct Hok as (_ & B2 & B3 & B4 & B5). repeat split; try assumption.
+    - eapply edge_ok_eq; [|exact B4]. rewrite <- B2. apply ND_same_e. apply He. left. reflexivity.
+    - eapply shape_frame; [| |exact B5].
+      + intros z Hz. apply ND_same_n. apply Hn. exact Hz.
+      + intros z Hz. apply ND_same_e. apply He. right. exact Hz.
+  Qed.
+
+  (** all the separation facts *)
+  Lemma ND_sep :
+    NoDup (sids sl1) /\ NoDup (seids sl1) /\ ~ In x (sids sl1) /\
+    NoDup (sids sl2) /\ NoDup (seids sl2) /\ ~ In y (sids sl2) /\ ~ In ec (seids sl2) /\
+    ~ In xm (sids slA) /\ ~ In e1 (seids slA) /\ ~ In ym (sids slB) /\ ~ In e2 (seids slB) /\
+    (forall j a b c, nth_error sl1 j = Some (Some (a, b, c)) -> j <> k -> j <> ix ->
+       (forall z, In z (lids c) -> TN z) /\ (forall z, In z (a :: leids c) -> TE z)) /\
+    (forall j a b c, nth_error sl2 j = Some (Some (a, b, c)) -> j <> iy ->
+       (forall z, In z (lids c) -> TN z) /\ (forall z, In z (a :: leids c) -> TE z)) /\
+    (forall z, In z (sids slA) -> TN z) /\ (forall z, In z (seids slA) -> TE z) /\
+    (forall z, In z (sids slB) -> TN z) /\ (forall z, In z (seids slB) -> TE z) /\
+    x <> y /\ x <> xm /\ x <> ym /\ y <> xm /\ y <> ym /\ xm <> ym /\ e1 <> e2 /\ e1 <> ec /\ e2 <> ec.
+  Proof.
+    assert (NdS : NoDup (lids sub1)) by (eapply lsubs_NoDup; [exact (rep_nd _ _ R)|exact Hsub]).
+    pose proof (shape_lsubs _ _ _ _ _ _ (rep_shape _ _ R) Hsub) as Shsub.
+    pose proof (shape_NoDup_leids _ _ _ Shsub NdS) as NedS.
+    unfold sub1 in NdS, NedS. rewrite lids_eq in NdS. rewrite leids_eq in NedS. fold (sids sl1) in NdS. fold (seids sl1) in NedS.
+    apply NoDup_cons_iff in NdS. destruct NdS as [Nx N1].
+    destruct (slot_nd sl1 k _ _ _ N1 NedS Hk) as [NY NYe]. unfold Ysub in NY, NYe. rewrite lids_eq in NY. rewrite leids_eq in NYe.
+    fold (sids sl2) in NY. fold (seids sl2) in NYe. apply NoDup_cons_iff in NY. destruct NY as [Ny N2]. apply NoDup_cons_iff in NYe. destruct NYe as [Nec NE2].
+    destruct (slot_nd sl1 ix _ _ _ N1 NedS Hix) as [NA NAe]. unfold A in NA, NAe. rewrite lids_eq in NA. rewrite leids_eq in NAe.
+    fold (sids slA) in NA. fold (seids slA) in NAe. apply NoDup_cons_iff in NA. destruct NA as [Nxm NA]. apply NoDup_cons_iff in NAe. destruct NAe as [Ne1 NAe].
+    destruct (slot_nd sl2 iy _ _ _ N2 NE2 Hiy) as [NB NBe]. unfold B in NB, NBe. rewrite lids_eq in NB. rewrite leids_eq in NBe.
+    fold (sids slB) in NB. fold (seids slB) in NBe. apply NoDup_cons_iff in NB. destruct NB as [Nym NB]. apply NoDup_cons_iff in NBe. destruct NBe as [Ne2 NBe].
+    assert (InY : forall z, In z (lids Ysub) -> In z (sids sl1)) by (intros z Hz; eapply in_sids; [eapply nth_error_In; exact Hk|exact Hz]).
+    assert (InA : forall z, In z (lids A) -> In z (sids sl1)) by (intros z Hz; eapply in_sids; [eapply nth_error_In; exact Hix|exact Hz]).
+    assert (InB : forall z, In z (lids B) -> In z (sids sl2)) by (intros z Hz; eapply in_sids; [eapply nth_error_In; exact Hiy|exact Hz]).
+    assert (In2Y : forall z, In z (sids sl2) -> In z (lids Ysub)) by (intros z Hz; unfold Ysub; rewrite lids_eq; right; exact Hz).
+    assert (In2Ye : forall z, In z (seids sl2) -> In z (leids Ysub)) by (intros z Hz; unfold Ysub; rewrite leids_eq; exact Hz).
+    assert (InBe : forall z, In z (e2 :: leids B) -> In z (seids sl2)).
+    { intros z [<-|Hz]; [eapply in_seids_here|eapply in_seids]; try (eapply nth_error_In; exact Hiy); exact Hz. }
+    assert (Yy : In y (lids Ysub)) by (left; reflexivity).
+    assert (Aa : In xm (lids A)) by (left; reflexivity).
+    assert (Bb : In ym (lids B)) by (left; reflexivity).
+    assert (YB : In ym (lids Ysub)) by (apply In2Y, InB, Bb).
+    assert (DYA : forall z, In z (lids Ysub) -> In z (lids A) -> False).
+    { intros z Z1 Z2. exact (sib_disj_n sl1 k ix _ _ _ _ _ _ z N1 Hk Hix (not_eq_sym Hne) Z1 Z2). }
+    assert (DYAe : forall z, In z (ec :: leids Ysub) -> In z (e1 :: leids A) -> False).
+    { intros z Z1 Z2. exact (sib_disj_e sl1 k ix _ _ _ _ _ _ z NedS Hk Hix (not_eq_sym Hne) Z1 Z2). }
+    assert (E2Y : In e2 (leids Ysub)) by (apply In2Ye, InBe; left; reflexivity).
+    split; [exact N1|]. split; [exact NedS|]. split; [exact Nx|]. split; [exact N2|]. split; [exact NE2|].
+    split; [exact Ny|]. split; [exact Nec|]. split; [exact Nxm|]. split; [exact Ne1|]. split; [exact Nym|]. split; [exact Ne2|].
+    split; [|split; [|split; [|split; [|split; [|split]]]]].
+    - intros j a b c Hj Hjk Hjx. split.
+      + intros z Hz. assert (Zs : In z (sids sl1)) by (eapply in_sids; [eapply nth_error_In; exact Hj|exact Hz]). repeat split; intros ->.
+        * exact (Nx Zs).
+        * exact (sib_disj_n sl1 j k _ _ _ _ _ _ _ N1 Hj Hk Hjk Hz Yy).
+        * exact (sib_disj_n sl1 j ix _ _ _ _ _ _ _ N1 Hj Hix Hjx Hz Aa).
+        * exact (sib_disj_n sl1 j k _ _ _ _ _ _ _ N1 Hj Hk Hjk Hz YB).
+      + intros z Hz. repeat split; intros ->.
+        * exact (sib_disj_e sl1 j ix _ _ _ _ _ _ _ NedS Hj Hix Hjx Hz (or_introl eq_refl)).
+        * exact (sib_disj_e sl1 j k _ _ _ _ _ _ _ NedS Hj Hk Hjk Hz (or_intror E2Y)).
+        * exact (sib_disj_e sl1 j k _ _ _ _ _ _ _ NedS Hj Hk Hjk Hz (or_introl eq_refl)).
+    - intros j a b c Hj Hjy. split.
+      + intros z Hz. assert (Zs : In z (sids sl2)) by (eapply in_sids; [eapply nth_error_In; exact Hj|exact Hz]). repeat split; intros ->.
+        * exact (Nx (InY _ (In2Y _ Zs))).
+        * exact (Ny Zs).
+        * exact (DYA _ (In2Y _ Zs) Aa).
+        * exact (sib_disj_n sl2 j iy _ _ _ _ _ _ _ N2 Hj Hiy Hjy Hz Bb).
+      + intros z Hz. assert (Zs : In z (seids sl2)).
+        { destruct Hz as [<-|Hz]; [eapply in_seids_here|eapply in_seids]; try (eapply nth_error_In; exact Hj); exact Hz. }
+        repeat split; intros ->.
+        * exact (DYAe _ (or_intror (In2Ye _ Zs)) (or_introl eq_refl)).
+        * exact (sib_disj_e sl2 j iy _ _ _ _ _ _ _ NE2 Hj Hiy Hjy Hz (or_introl eq_refl)).
+        * exact (Nec Zs).
+    - intros z Hz. assert (ZA : In z (lids A)) by (unfold A; rewrite lids_eq; right; exact Hz). repeat split; intros ->.
+      + exact (Nx (InA _ ZA)).
+      + exact (DYA _ Yy ZA).
+      + exact (Nxm Hz).
+      + exact (DYA _ YB ZA).
+    - intros z Hz. assert (ZA : In z (e1 :: leids A)) by (right; unfold A; rewrite leids_eq; exact Hz). repeat split; intros ->.
+      + exact (Ne1 Hz).
+      + exact (DYAe _ (or_intror E2Y) ZA).
+      + exact (DYAe _ (or_introl eq_refl) ZA).
+    - intros z Hz. assert (ZB : In z (lids B)) by (unfold B; rewrite lids_eq; right; exact Hz). repeat split; intros ->.
+      + exact (Nx (InY _ (In2Y _ (InB _ ZB)))).
+      + exact (Ny (InB _ ZB)).
+      + exact (DYA _ (In2Y _ (InB _ ZB)) Aa).
+      + exact (Nym Hz).
+    - intros z Hz. assert (ZB : In z (e2 :: leids B)) by (right; unfold B; rewrite leids_eq; exact Hz). repeat split; intros ->.
+      + exact (DYAe _ (or_intror (In2Ye _ (InBe _ ZB))) (or_introl eq_refl)).
+      + exact (Ne2 Hz).
+      + exact (Nec (InBe _ ZB)).
+    - repeat split; intros E0.
+      + apply Nx. rewrite E0. exact (InY _ Yy).
+      + apply Nx. rewrite E0. exact (InA _ Aa).
+      + apply Nx. rewrite E0. exact (InY _ YB).
+      + apply (DYA y Yy). rewrite E0. exact Aa.
+      + apply Ny. rewrite E0. exact (InB _ Bb).
+      + apply (DYA ym YB). rewrite <- E0. exact Aa.
+      + apply (DYAe e2 (or_intror E2Y)). rewrite <- E0. left. reflexivity.
+      + apply (DYAe ec (or_introl eq_refl)). rewrite <- E0. left. reflexivity.
+      + apply Nec. rewrite <- E0. apply InBe. left. reflexivity.
+  Qed.
+
+  Lemma ND_facts :
+    length (hneigh hx) = length (hbr hx) /\ hname hx = nmx /\ hcom hx = cmx /\
+    Forall2 (slot_ok true h p1 x) (slots_of hx) sl1 /\
+    length (hneigh hy) = length (hbr hy) /\ hname hy = nmy /\ hcom hy = cmy /\
+    Forall2 (slot_ok true h (Some (x, ec)) y) (slots_of hy) sl2 /\
+    nth_error (slots_of hx) k = Some (y, ec) /\ nth_error (slots_of hx) ix = Some (xm, e1) /\
+    nth_error (slots_of hy) iy = Some (ym, e2) /\
+    edge_ok true h ec x y eic /\ shape true h (Some (x, e1)) A /\ shape true h (Some (y, e2)) B /\
+    p1 <> Some (y, ec) /\ lwf_sub A /\ lwf_sub B.
+  Proof.
+    pose proof (shape_lsubs _ _ _ _ _ _ (rep_shape _ _ R) Hsub) as Sh. unfold sub1 in Sh.
+    apply shape_unfold in Sh. destruct Sh as [hx0 (A1 & A2 & A3 & A4 & A5)]. rewrite Hx in A1. injection A1 as <-.
+    destruct (Forall2_nth_r _ _ _ _ _ A5 Hk) as [[c0 e0] [K1 K2]]. cbn [slot_ok fst snd lid] in K2.
+    destruct K2 as (K3 & K4 & K5 & K6 & K7). unfold Ysub in K5. cbn [lid] in K5. subst c0 e0.
+    destruct (Forall2_nth_r _ _ _ _ _ A5 Hix) as [[c0 e0] [X1 X2]]. cbn [slot_ok fst snd lid] in X2.
+    destruct X2 as (_ & X4 & X5 & _ & X7). unfold A in X5. cbn [lid] in X5. subst c0 e0.
+    unfold Ysub in K7. apply shape_unfold in K7. destruct K7 as [hy0 (B1 & B2 & B3 & B4 & B5)]. rewrite Hy in B1. injection B1 as <-.
+    destruct (Forall2_nth_r _ _ _ _ _ B5 Hiy) as [[c0 e0] [Y1 Y2]]. cbn [slot_ok fst snd lid] in Y2.
+    destruct Y2 as (_ & Y4 & Y5 & _ & Y7). unfold B in Y5. cbn [lid] in Y5. subst c0 e0.
+    assert (HsubY : In (Some (x, ec), Ysub) (lsubs None lt)).
+    { eapply lsubs_trans; [exact Hsub|]. unfold sub1. eapply lsubs_child. eapply nth_error_In. exact Hk. }
+    assert (HsubA : In (Some (x, e1), A) (lsubs None lt)).
+    { eapply lsubs_trans; [exact Hsub|]. unfold sub1. eapply lsubs_child. eapply nth_error_In. exact Hix. }
+    assert (HsubB : In (Some (y, e2), B) (lsubs None lt)).
+    { eapply lsubs_trans; [exact HsubY|]. unfold Ysub. eapply lsubs_child. eapply nth_error_In. exact Hiy. }
+    destruct (lwf_sub_lsubs lt None _ _ (or_introl (rep_wf _ _ R)) HsubA) as [E|WA]; [discriminate|].
+    destruct (lwf_sub_lsubs lt None _ _ (or_introl (rep_wf _ _ R)) HsubB) as [E|WB]; [discriminate|].
+    repeat split; assumption.
+  Qed.
+
+  Lemma ND_shape_new : shape true h' p1 new1.
+  Proof.
+    destruct ND_facts as (Lx & Nx & Cx & F1 & Ly & Ny & Cy & F2 & Kk & Kix & Kiy & Eck & ShA & ShB & Pne & WA & WB).
+    destruct ND_sep as (N1 & NE1 & Nxs & N2 & NE2 & Nys & Necs & NxmA & Ne1A & NymB & Ne2B & Sib1 & Sib2 & InAn & InAe & InBn & InBe &
+                        Dxy & Dxxm & Dxym & Dyxm & Dyym & Dxmym & De12 & De1c & De2c).
+    unfold A in WA. apply lwf_sub_iff in WA. destruct WA as [WA1 _]. unfold B in WB. apply lwf_sub_iff in WB. destruct WB as [WB1 _].
+    (* lookups in the new heap *)
+    assert (Lx' : alookup x (hnodes h') = Some (mkHN (hname hx) (hcom hx) (put_nth ix ym (hneigh hx)) (put_nth ix e2 (hbr hx)))).
+    { rewrite (nd_nodes _ _ _ _ _ _ _ _ _ _ _ _ _ _ _ _ _ _ _ _ _ D), Nat.eqb_refl. reflexivity. }
+    assert (Ly' : alookup y (hnodes h') = Some (mkHN (hname hy) (hcom hy) (put_nth iy xm (hneigh hy)) (put_nth iy e1 (hbr hy)))).
+    { rewrite (nd_nodes _ _ _ _ _ _ _ _ _ _ _ _ _ _ _ _ _ _ _ _ _ D). destruct (Nat.eqb_spec y x); [congruence|]. rewrite Nat.eqb_refl. reflexivity. }
+    assert (Lxm' : alookup xm (hnodes h') = Some (mkHN (hname hxm) (hcom hxm) (put_nth jx y (hneigh hxm)) (hbr hxm))).
+    { rewrite (nd_nodes _ _ _ _ _ _ _ _ _ _ _ _ _ _ _ _ _ _ _ _ _ D). destruct (Nat.eqb_spec xm x); [congruence|]. destruct (Nat.eqb_spec xm y); [congruence|].
+      rewrite Nat.eqb_refl. reflexivity. }
+    assert (Lym' : alookup ym (hnodes h') = Some (mkHN (hname hym) (hcom hym) (put_nth jy x (hneigh hym)) (hbr hym))).
+    { rewrite (nd_nodes _ _ _ _ _ _ _ _ _ _ _ _ _ _ _ _ _ _ _ _ _ D). destruct (Nat.eqb_spec ym x); [congruence|]. destruct (Nat.eqb_spec ym y); [congruence|].
+      destruct (Nat.eqb_spec ym xm); [congruence|]. rewrite Nat.eqb_refl. reflexivity. }
+    assert (Le1' : alookup e1 (hedges h') = Some (mkHE y xm ei1)).
+    { rewrite (nd_edges _ _ _ _ _ _ _ _ _ _ _ _ _ _ _ _ _ _ _ _ _ D), Nat.eqb_refl. unfold move_end. cbn. rewrite Nat.eqb_refl. reflexivity. }
+    assert (Le2' : alookup e2 (hedges h') = Some (mkHE x ym ei2)).
+    { rewrite (nd_edges _ _ _ _ _ _ _ _ _ _ _ _ _ _ _ _ _ _ _ _ _ D). destruct (Nat.eqb_spec e2 e1); [congruence|]. rewrite Nat.eqb_refl.
+      unfold move_end. cbn. rewrite Nat.eqb_refl. reflexivity. }
+    assert (Lec' : alookup ec (hedges h') = alookup ec (hedges h)).
+    { rewrite (nd_edges _ _ _ _ _ _ _ _ _ _ _ _ _ _ _ _ _ _ _ _ _ D). destruct (Nat.eqb_spec ec e1); [congruence|]. destruct (Nat.eqb_spec ec e2); [congruence|].
+      rewrite Nat.eqb_refl. symmetry. exact Hec. }
+    (* the two moved subtrees *)
+    assert (ShA' : shape true h' (Some (y, e1)) A).
+    { unfold A in *. eapply (reparent_shape h h' x y e1 xm nmA cmA slA hxm jx ShA WA1 Hxm Jx); [|exact Lxm'| |].
+      - intros z Hz. apply (InAn z Hz).
+      - intros z Hz. split; [apply ND_same_n; apply InAn; exact Hz|apply (InAn z Hz)].
+      - intros z Hz. apply ND_same_e. apply InAe. exact Hz. }
+    assert (ShB' : shape true h' (Some (x, e2)) B).
+    { unfold B in *. eapply (reparent_shape h h' y x e2 ym nmB cmB slB hym jy ShB WB1 Hym Jy); [|exact Lym'| |].
+      - intros z Hz. apply (InBn z Hz).
+      - intros z Hz. split; [apply ND_same_n; apply InBn; exact Hz|apply (InBn z Hz)].
+      - intros z Hz. apply ND_same_e. apply InBe. exact Hz. }
+    (* the lower node *)
+    assert (LenY : iy < length (slots_of hy)) by (apply nth_error_Some; congruence).
+    assert (LenX : ix < length (slots_of hx) /\ k < length (slots_of hx)) by (split; apply nth_error_Some; congruence).
+    assert (ShY' : shape true h' (Some (x, ec)) Y').
+    { unfold Y'. apply shape_unfold. eexists. split; [exact Ly'|]. cbn [hname hcom hneigh hbr].
+      split; [exact Ny|]. split; [exact Cy|]. split; [unfold put_nth; rewrite !length_set_nth; exact Ly|].
+      unfold put_nth. rewrite combine_set_nth_both. change (combine (hneigh hy) (hbr hy)) with (slots_of hy).
+      apply Forall2_pointwise; [rewrite !length_set_nth; exact (Forall2_length' _ _ _ F2)|].
+      intros j ce s Hj Hs. destruct (Nat.eq_dec j iy) as [->|Hjy].
+      - rewrite nth_error_set_nth_eq in Hj by exact LenY. injection Hj as <-.
+        rewrite nth_error_set_nth_eq in Hs by (rewrite <- (Forall2_length' _ _ _ F2); exact LenY). injection Hs as <-.
+        cbn [slot_ok fst snd lid A]. split; [intros [= E0 _]; congruence|]. split; [reflexivity|]. split; [reflexivity|].
+        split; [eexists; split; [exact Le1'|]; repeat split|]. exact ShA'.
+      - rewrite nth_error_set_nth_ne in Hj by exact Hjy. rewrite nth_error_set_nth_ne in Hs by exact Hjy.
+        destruct (Forall2_nth _ _ _ _ _ F2 Hj) as [s' [Hs' Hok]]. rewrite Hs in Hs'. injection Hs' as <-.
+        destruct s as [[[a b] X]|]; [|exact Hok].
+        destruct (Sib2 j a b X Hs Hjy) as [U1 U2].
+        eapply ND_untouched; [exact U1|exact U2| |exact Hok]. cbn in Hok. apply Hok. }
+    (* the upper node *)
+    unfold new1. apply shape_unfold. eexists. split; [exact Lx'|]. cbn [hname hcom hneigh hbr].
+    split; [exact Nx|]. split; [exact Cx|]. split; [unfold put_nth; rewrite !length_set_nth; exact Lx|].
+    unfold put_nth. rewrite combine_set_nth_both. change (combine (hneigh hx) (hbr hx)) with (slots_of hx).
+    apply Forall2_pointwise; [rewrite !length_set_nth; exact (Forall2_length' _ _ _ F1)|].
+    intros j ce s Hj Hs. destruct (Nat.eq_dec j ix) as [->|Hjx].
+    - rewrite nth_error_set_nth_eq in Hj by apply LenX. injection Hj as <-.
+      rewrite nth_error_set_nth_eq in Hs by (rewrite length_set_nth, <- (Forall2_length' _ _ _ F1); apply LenX). injection Hs as <-.
+      cbn [slot_ok fst snd lid B]. split.
+      { destruct p1 as [[pp pe]|]; [|discriminate]. intros [= E0 _]. subst pp.
+        destruct (Rep_parent h lt R ym pe sub1 Hsub) as (hm & ed0 & _ & _ & _ & _ & _ & P6). apply P6.
+        unfold sub1. rewrite lids_eq. right. eapply in_sids; [eapply nth_error_In; exact Hk|]. unfold Ysub. rewrite lids_eq. right.
+        eapply in_sids; [eapply nth_error_In; exact Hiy|left; reflexivity]. }
+      split; [reflexivity|]. split; [reflexivity|]. split; [eexists; split; [exact Le2'|]; repeat split|]. exact ShB'.
+    - rewrite nth_error_set_nth_ne in Hj by exact Hjx. rewrite nth_error_set_nth_ne in Hs by exact Hjx.
+      destruct (Nat.eq_dec j k) as [->|Hjk].
+      + rewrite Kk in Hj. injection Hj as <-.
+        rewrite nth_error_set_nth_eq in Hs by (rewrite <- (Forall2_length' _ _ _ F1); apply LenX). injection Hs as <-.
+        cbn [slot_ok fst snd lid Y']. split; [exact Pne|]. split; [reflexivity|]. split; [reflexivity|].
+        split; [eapply edge_ok_eq; [exact Lec'|exact Eck]|]. exact ShY'.
+      + rewrite nth_error_set_nth_ne in Hs by exact Hjk.
+        destruct (Forall2_nth _ _ _ _ _ F1 Hj) as [s' [Hs' Hok]]. rewrite Hs in Hs'. injection Hs' as <-.
+        destruct s as [[[a b] X]|]; [|exact Hok].
+        destruct (Sib1 j a b X Hs Hjk Hjx) as [U1 U2].
+        eapply ND_untouched; [exact U1|exact U2| |exact Hok]. cbn in Hok. apply Hok.
+  Qed.
+
+  Lemma ND_perm : Permutation (lids new1) (lids sub1) /\ Permutation (leids new1) (leids sub1).
+  Proof.
+    assert (Hix' : nth_error (set_nth k (Some (ec, eic, Y')) sl1) ix = Some (Some (e1, ei1, A))) by (rewrite nth_error_set_nth_ne by exact Hne; exact Hix).
+    unfold new1, sub1. rewrite !lids_eq, !leids_eq.
+    fold (sids (set_nth ix (Some (e2, ei2, B)) (set_nth k (Some (ec, eic, Y')) sl1))) (sids sl1)
+         (seids (set_nth ix (Some (e2, ei2, B)) (set_nth k (Some (ec, eic, Y')) sl1))) (seids sl1). split.
+    - apply perm_skip.
+      pose proof (flat_set_nth_swap (fun s : lslot => match s with Some (_, _, ch) => lids ch | None => [] end) _ ix _ (Some (e2, ei2, B)) Hix') as P1.
+      pose proof (flat_set_nth_swap (fun s : lslot => match s with Some (_, _, ch) => lids ch | None => [] end) _ k _ (Some (ec, eic, Y')) Hk) as P2.
+      pose proof (flat_set_nth_swap (fun s : lslot => match s with Some (_, _, ch) => lids ch | None => [] end) _ iy _ (Some (e1, ei1, A)) Hiy) as P3.
+      unfold Ysub, Y' in P2. rewrite !lids_eq in P2.
+      eapply (perm_nni (lids A) (lids B) _ _ _ _ _ y); [exact P1|exact P2|exact P3].
+    - pose proof (flat_set_nth_swap (fun s : lslot => match s with Some (e, _, ch) => e :: leids ch | None => [] end) _ ix _ (Some (e2, ei2, B)) Hix') as P1.
+      pose proof (flat_set_nth_swap (fun s : lslot => match s with Some (e, _, ch) => e :: leids ch | None => [] end) _ k _ (Some (ec, eic, Y')) Hk) as P2.
+      pose proof (flat_set_nth_swap (fun s : lslot => match s with Some (e, _, ch) => e :: leids ch | None => [] end) _ iy _ (Some (e1, ei1, A)) Hiy) as P3.
+      unfold Ysub, Y' in P2. rewrite !leids_eq in P2.
+      eapply (perm_nni (e1 :: leids A) (e2 :: leids B) _ _ _ _ _ ec); [exact P1|exact P2|exact P3].
+  Qed.
+
+  Theorem ND_Rep : Rep h' (lreplace x new1 lt).
+  Proof.
+    destruct ND_perm as [PN PE].
+    destruct ND_sep as (N1 & NE1 & Nxs & N2 & NE2 & Nys & Necs & NxmA & Ne1A & NymB & Ne2B & Sib1 & Sib2 & InAn & InAe & InBn & InBe &
+                        Dxy & Dxxm & Dxym & Dyxm & Dyym & Dxmym & De12 & De1c & De2c).
+    destruct ND_facts as (Lx & Nx & Cx & F1 & Ly & Ny & Cy & F2 & Kk & Kix & Kiy & Eck & ShA & ShB & Pne & WA & WB).
+    assert (NdS : NoDup (lids sub1)) by (eapply lsubs_NoDup; [exact (rep_nd _ _ R)|exact Hsub]).
+    pose proof (shape_lsubs _ _ _ _ _ _ (rep_shape _ _ R) Hsub) as Shsub.
+    pose proof (shape_NoDup_leids _ _ _ Shsub NdS) as NedS.
+    assert (SubN : forall z, In z (lids sub1) -> In z (lids lt)) by (intros z Hz; eapply lsubs_sub_lids; eassumption).
+    assert (SubE : forall z, In z (leids sub1) -> In z (leids lt)) by (intros z Hz; eapply lsubs_sub_leids; eassumption).
+    assert (Inx : In x (lids sub1)) by (left; reflexivity).
+    assert (InYs : forall z, In z (lids Ysub) -> In z (lids sub1)) by (intros z Hz; unfold sub1; eapply in_lids_child; [eapply nth_error_In; exact Hk|exact Hz]).
+    assert (Iny : In y (lids sub1)) by (apply InYs; left; reflexivity).
+    assert (Inxm : In xm (lids sub1)) by (unfold sub1; eapply in_lids_child; [eapply nth_error_In; exact Hix|left; reflexivity]).
+    assert (Inym : In ym (lids sub1)) by (apply InYs; unfold Ysub; eapply in_lids_child; [eapply nth_error_In; exact Hiy|left; reflexivity]).
+    assert (Ine1 : In e1 (leids sub1)) by (unfold sub1; eapply in_leids_here; eapply nth_error_In; exact Hix).
+    assert (Inec : In ec (leids sub1)) by (unfold sub1; eapply in_leids_here; eapply nth_error_In; exact Hk).
+    assert (Ine2 : In e2 (leids sub1)).
+    { unfold sub1. eapply in_leids_child; [eapply nth_error_In; exact Hk|]. unfold Ysub. eapply in_leids_here. eapply nth_error_In. exact Hiy. }
+    assert (DomN : forall z, alookup z (hnodes h') <> None <-> alookup z (hnodes h) <> None).
+    { intros z. rewrite (nd_nodes _ _ _ _ _ _ _ _ _ _ _ _ _ _ _ _ _ _ _ _ _ D).
+      destruct (Nat.eqb_spec z x) as [->|]; [split; intros _; congruence|].
+      destruct (Nat.eqb_spec z y) as [->|]; [split; intros _; congruence|].
+      destruct (Nat.eqb_spec z xm) as [->|]; [split; intros _; congruence|].
+      destruct (Nat.eqb_spec z ym) as [->|]; [split; intros _; congruence|]. reflexivity. }
+    assert (He1 : alookup e1 (hedges h) <> None) by (apply (rep_edges _ _ R), SubE, Ine1).
+    assert (He2 : alookup e2 (hedges h) <> None) by (apply (rep_edges _ _ R), SubE, Ine2).
+    assert (DomE : forall z, alookup z (hedges h') <> None <-> alookup z (hedges h) <> None).
+    { intros z. rewrite (nd_edges _ _ _ _ _ _ _ _ _ _ _ _ _ _ _ _ _ _ _ _ _ D).
+      destruct (Nat.eqb_spec z e1) as [->|]; [split; intros _; [exact He1|discriminate]|].
+      destruct (Nat.eqb_spec z e2) as [->|]; [split; intros _; [exact He2|discriminate]|].
+      destruct (Nat.eqb_spec z ec) as [->|]; [split; intros _; congruence|]. reflexivity. }
+    assert (InN : forall z, In z (lids new1) <-> In z (lids sub1)).
+    { intros z. split; intros Hz; [eapply Permutation_in; [exact PN|exact Hz]|eapply Permutation_in; [symmetry; exact PN|exact Hz]]. }
+    assert (InE : forall z, In z (leids new1) <-> In z (leids sub1)).
+    { intros z. split; intros Hz; [eapply Permutation_in; [exact PE|exact Hz]|eapply Permutation_in; [symmetry; exact PE|exact Hz]]. }
+    assert (Kwf : forall (sl sl' : list lslot), (forall a b c, In (Some (a, b, c)) sl -> lwf_sub c) ->
+                  (forall s, In s sl' -> In s sl \/ (exists a b c, s = Some (a, b, c) /\ lwf_sub c)) ->
+                  forall a b c, In (Some (a, b, c)) sl' -> lwf_sub c).
+    { intros sl sl' H1 H2 a b c Hin. destruct (H2 _ Hin) as [Hi|(a' & b' & c' & E0 & W)]; [exact (H1 _ _ _ Hi)|]. injection E0 as -> -> ->. exact W. }
+    assert (WY' : (forall a b c, In (Some (a, b, c)) sl2 -> lwf_sub c) -> lnup sl2 = 1 -> lwf_sub Y').
+    { intros K2 U2. unfold Y'. apply lwf_sub_iff. split.
+      - rewrite (lnup_set_nth_some sl2 iy _ _ _ _ Hiy); [exact U2|eauto].
+      - apply (Kwf sl2); [exact K2|]. intros s Hs. apply in_set_nth in Hs. destruct Hs as [->|Hs]; [right; eauto|left; exact Hs]. }
+    assert (HsubY : In (Some (x, ec), Ysub) (lsubs None lt)).
+    { eapply lsubs_trans; [exact Hsub|]. unfold sub1. eapply lsubs_child. eapply nth_error_In. exact Hk. }
+    destruct (lwf_sub_lsubs lt None _ _ (or_introl (rep_wf _ _ R)) HsubY) as [E|WY]; [discriminate|].
+    unfold Ysub in WY. apply lwf_sub_iff in WY. destruct WY as [WY1 WY2].
+    assert (Wnew : forall (U : nat), lnup sl1 = U -> (forall a b c, In (Some (a, b, c)) sl1 -> lwf_sub c) ->
+              lnup (set_nth ix (Some (e2, ei2, B)) (set_nth k (Some (ec, eic, Y')) sl1)) = U /\
+              forall a b c, In (Some (a, b, c)) (set_nth ix (Some (e2, ei2, B)) (set_nth k (Some (ec, eic, Y')) sl1)) -> lwf_sub c).
+    { intros U HU K1. split.
+      - rewrite (lnup_set_nth_some _ ix e1 ei1 A); [|rewrite nth_error_set_nth_ne by exact Hne; exact Hix|eauto].
+        rewrite (lnup_set_nth_some sl1 k _ _ _ _ Hk); [exact HU|eauto].
+      - apply (Kwf sl1); [exact K1|]. intros s Hs. apply in_set_nth in Hs. destruct Hs as [->|Hs]; [right; eauto|].
+        apply in_set_nth in Hs. destruct Hs as [->|Hs]; [right; do 3 eexists; split; [reflexivity|exact (WY' WY2 WY1)]|left; exact Hs]. }
+    apply (Rep_replace h h' lt x p1 sub1 new1 R Hsub eq_refl eq_refl).
+    - exact ND_shape_new.
+    - intros z Hz Hz'. apply ND_same_n. repeat split; intros ->; contradiction.
+    - intros z Hz Hz'. apply ND_same_e. repeat split; intros ->; contradiction.
+    - intros W. unfold sub1 in W. apply lwf_iff in W. destruct W as [X1 X2]. unfold new1. apply lwf_iff. exact (Wnew 0 X1 X2).
+    - intros W. unfold sub1 in W. apply lwf_sub_iff in W. destruct W as [X1 X2]. unfold new1. apply lwf_sub_iff. exact (Wnew 1 X1 X2).
+    - exact (nd_root _ _ _ _ _ _ _ _ _ _ _ _ _ _ _ _ _ _ _ _ _ D).
+    - eapply Permutation_NoDup; [symmetry; exact PN|exact NdS].
+    - intros z Hz. left. apply InN. exact Hz.
+    - eapply Permutation_NoDup; [symmetry; exact PE|exact NedS].
+    - intros z Hz. left. apply InE. exact Hz.
+    - intros z. rewrite DomN, InN, <- (rep_nodes _ _ R z). split.
+      + intros Hz. destruct (in_dec Nat.eq_dec z (lids sub1)); tauto.
+      + intros [X|[X _]]; [apply SubN; exact X|exact X].
+    - intros z. rewrite DomE, InE, <- (rep_edges _ _ R z). split.
+      + intros Hz. destruct (in_dec Nat.eq_dec z (leids sub1)); tauto.
+      + intros [X|[X _]]; [apply SubE; exact X|exact X].
+    - intros z Hz. rewrite (nd_nextn _ _ _ _ _ _ _ _ _ _ _ _ _ _ _ _ _ _ _ _ _ D). apply (rep_fn _ _ R), (rep_nodes _ _ R), DomN. exact Hz.
+    - intros z Hz. rewrite (nd_nexte _ _ _ _ _ _ _ _ _ _ _ _ _ _ _ _ _ _ _ _ _ D). apply (rep_fe _ _ R), (rep_edges _ _ R), DomE. exact Hz.
+  Qed.
+End Down.
